@@ -55,6 +55,15 @@ func baseProfile(name string) Profile {
 }
 
 var ctxKeys = []string{"a", "b", "c", "d", "e", "f"}
+
+// ctxKey: a context key, or a key of a list. Mostly from the small pool (so that lists and contexts meet); sometimes a key
+// that differs from a pool key only by padding or letter case -- keys are compared exactly, never normalised.
+func ctxKey(r *Rng) string {
+	if r.P(0.06) {
+		return r.Pick([]string{"a ", " a", "b\t", "A", "a\n", "c "})
+	}
+	return r.Pick(ctxKeys)
+}
 var kinds = []string{"user", "org", "dev"}
 
 // docKind: a context kind written in a document (clause / rollout / target / big-segment kind). Mostly a real kind; sometimes
@@ -69,7 +78,7 @@ func docKind(r *Rng) string {
 	return r.Pick(kinds)
 }
 var flagKeys = []string{"f0", "f1", "f2", "f3", "f4", "f%d-50%-off"} // one key that a printf-style logger must not interpret
-var segKeys = []string{"s0", "s1", "s2", "s3", "s4", "s%v"}
+var segKeys = []string{"s0", "s1", "s2", "s3", "s4", "s%v", "f1", "f0"} // flag keys and segment keys are separate name spaces: a segment may be called like a flag
 
 var strPool = []string{"alice@x.com", "bob", "a", "b", "", "x.com", "Alice", "ab", "zzz", "user", "org", "日本", "a/b", "~t", "\x00", "a\x00b", "\x7f\x01"}
 var numPool = []float64{1577836807123, 0, 1, -1, 42, 42.5, 1e10, 9007199254740992, -9007199254740992, 0.1, 99.99, 3, 1577836800000,
@@ -80,10 +89,11 @@ var datePool = []string{"2020-01-01T00:00:07.1234Z", "2020-01-01T00:00:07.1238Z"
 	"2020-13-01T00:00:00Z", "2020-01-01", "2020-01-01T00:00:00", "2020-02-30T00:00:00Z", "2020-1-01T00:00:00Z",
 	"2020-01-01T24:00:00Z", "2020-01-01T00:00:60Z", "not a date", "1970-01-01T00:00:00Z", "2262-04-12T00:00:00Z",
 	"0000-01-01T00:00:00Z", "2020-01-01T00:00:00+99:00", "2020-01-01T0:00:00Z", "2021-06-\x0009T18:53:52Z", "\x00", "2020-01-01T00:00:00Z\x00", "2020-01-01T00:00:00-03:30", "2020-01-01T00:00:00-00:45",
-	"2020-01-01T00:00:00Zjunk", "2020-01-01T00:00:00+01:00\x00junk", "2020-02-31T00:00:00Z", "2020-01-01T00:00:00.5Zx", "2019-02-29T00:00:00Z", "2020-02-29T00:00:00Z", "2020-04-31T12:00:00+01:00"}
+	"2020-01-01T00:00:00Zjunk", "2020-01-01T00:00:00+01:00\x00junk", "2020-02-31T00:00:00Z", "2020-01-01T00:00:00.5Zx", "2019-02-29T00:00:00Z", "2020-02-29T00:00:00Z", "2020-04-31T12:00:00+01:00",
+	"1990-12-31T23:59:60Z", "1990-12-31T15:59:60-08:00", "2016-12-31T23:59:60.5+00:00", "2020-01-01T00:00:00.0000000001Z"}
 var semverPool = []string{"1.0.0", "1.0", "1", "1.0.0-rc.1", "1.0.0-rc.2", "1.0.0-rc.10", "1.0.0+build", "2.0.0", "01.0.0",
 	"1.0.0-rc.1.x", "1.0.0-alpha", "1.0.0-1", "0.9.9", "1.0.1", "1.1", "x", "1.0.0-", "1.0.0-rc..1", "1.0.0-0rc", "1.0.0-00",
-	"10.2.3", "1.0.0-rc.1+b.7"}
+	"10.2.3", "1.0.0-rc.1+b.7", " 1.0.0", "1.0.0\n", "\t2.0.0", "1.0.0 ", "v1.0.0", "1.0.0-rc.1 "}
 var regexPool = []string{"^a", "x\\.com$", "(", "[a-z]+@", "", "b.b", "^$", "(?i)ALICE", "a|b", "[", "\\d+", "日"}
 var attrNames = []string{"email", "age", "tags", "ver", "date", "score", "nested", "beta", "/slash~name", "nums", "s2"}
 
@@ -171,7 +181,7 @@ func (w *World) anyValue(depth int) *J {
 func (w *World) attrValue(name string) *J {
 	switch name {
 	case "email":
-		return JStr(w.r.Pick([]string{"alice@x.com", "bob@y.org", "x.com", "a"}))
+		return JStr(w.r.Pick([]string{"alice@x.com", "bob@y.org", "x.com", "a", "alice@x.com", "bob@y.org", ""}))
 	case "age":
 		if w.r.P(0.1) {
 			return JNum([]float64{0, math.Copysign(0, -1)}[w.r.Intn(2)])
@@ -206,7 +216,11 @@ func (w *World) attrValue(name string) *J {
 	case "nums":
 		a := &J{K: 'a', A: []*J{}}
 		for i := 0; i < w.r.Range(1, 3); i++ {
-			a.A = append(a.A, JNum(numPool[w.r.Intn(len(numPool))]))
+			e := JNum(numPool[w.r.Intn(len(numPool))])
+			if w.r.P(0.12) { // an element that is itself an array: only one level is opened, the inner value satisfies nothing
+				e = JArr(e)
+			}
+			a.A = append(a.A, e)
 		}
 		return a
 	}
@@ -214,7 +228,7 @@ func (w *World) attrValue(name string) *J {
 }
 
 func (w *World) genSingle(kind string) SingleSpec {
-	sp := SingleSpec{Kind: kind, Key: w.r.Pick(ctxKeys)}
+	sp := SingleSpec{Kind: kind, Key: ctxKey(w.r)}
 	if w.r.P(w.p.PLongStrings) {
 		sp.Key = w.str() + "k"
 	}
@@ -380,7 +394,7 @@ func (w *World) genClause(segOK bool) *J {
 	if r.P(0.04) {
 		op = r.Pick([]string{"unknownOp", "", "IN"})
 	}
-	if (op == "before" || op == "after") && r.P(0.5) {
+	if (op == "before" || op == "after") && r.P(0.8) {
 		// a date comparison is only interesting against an attribute that holds a date
 		for _, sp := range w.ctx.Singles {
 			for _, kv := range sp.Attrs {
@@ -474,6 +488,10 @@ func (w *World) genClause(segOK bool) *J {
 				v = w.scalarOfType([]int{3, 3, 1, 2}[r.Intn(4)])
 				if r.P(0.1 + 0.25*p.PDateAttr) { // instants outside the years a timestamp string can spell (0000-9999), as numbers
 					v = JNum([]float64{253402300800000, 253402300799999, 9007199254740992, -62167219200001, -62167219200000, -1e15}[r.Intn(6)])
+				}
+				if attr == "date" && r.P(0.35) { // instants that share a millisecond with what the context's date attribute may hold
+					v = []*J{JStr("2020-01-01T00:00:07.1234Z"), JStr("2020-01-01T00:00:07.1238Z"), JStr("2020-01-01T00:00:07.123Z"),
+						JStr("2020-01-01T00:00:07.123999999Z"), JNum(1577836807123), JStr("2020-01-01T01:00:07.1234+01:00")}[r.Intn(6)]
 				}
 				if r.P(0.1) { // the shortest spellings: a one-digit hour, no fraction, Z (19 bytes)
 					v = JStr(r.Pick([]string{"2021-03-04T5:06:07Z", "1999-12-31T9:59:59Z", "2020-01-01T0:00:00z", "0001-01-01T0:00:00Z", "2019-12-31t9:00:00Z"}))
@@ -628,6 +646,22 @@ func (w *World) genRollout(flagKey, salt string, nvars int) *J {
 					kind = w.ctx.Singles[r.Intn(len(w.ctx.Singles))].Kind
 				}
 				ro.Set("contextKind", JStr(kind))
+			}
+		}
+	}
+	if !isExp && r.P(0.5) { // a context whose "age" is a zero of either sign: bucketed as the integer 0, rendered "0"
+		for _, sp := range w.ctx.Singles {
+			for _, kv := range sp.Attrs {
+				if kv.K == "age" && kv.V != nil && kv.V.K == 'n' && kv.V.N == 0 {
+					bucketBy = "age"
+					if sp.Kind != "user" || r.P(0.3) {
+						kind = sp.Kind
+						ro.Set("contextKind", JStr(kind))
+					} else if kind != "" {
+						kind = ""
+						ro.Del("contextKind")
+					}
+				}
 			}
 		}
 	}
@@ -794,6 +828,9 @@ func (w *World) genFlag(key string, prereqPool []string) *J {
 		for i := 0; i < r.Range(1, p.MaxPrereq); i++ {
 			pq := JObj(KV{"key", JStr(r.Pick(prereqPool))})
 			if pv := int64(r.Intn(nvars)); pv != 0 || r.P(0.6) { // hand-written documents leave a zero variation out
+				if r.P(0.05) { // an index the prerequisite flag does not have: simply never met (and nothing to diagnose)
+					pv = r.Pick2([]int64{-1, 7, 99, int64(nvars)})
+				}
 				pq.Set("variation", JInt(pv))
 			}
 			pre.A = append(pre.A, pq)
@@ -865,7 +902,7 @@ func (w *World) genSegTargets(n int) *J {
 		}
 		vals := &J{K: 'a', A: []*J{}}
 		for j := 0; j < r.Intn(4); j++ {
-			vals.A = append(vals.A, JStr(r.Pick(ctxKeys)))
+			vals.A = append(vals.A, JStr(ctxKey(r)))
 		}
 		t.Set("values", vals)
 		arr.A = append(arr.A, t)
@@ -881,12 +918,12 @@ func strArr(r *Rng, n int) *J {
 			a.A = append(a.A, JStr(fmt.Sprintf("k%d", i)))
 		}
 		if r.P(0.5) {
-			a.A[r.Intn(m)] = JStr(r.Pick(ctxKeys))
+			a.A[r.Intn(m)] = JStr(ctxKey(r))
 		}
 		return a
 	}
 	for i := 0; i < n; i++ {
-		a.A = append(a.A, JStr(r.Pick(ctxKeys)))
+		a.A = append(a.A, JStr(ctxKey(r)))
 	}
 	return a
 }
